@@ -187,6 +187,13 @@ func runC15(c *rt.Ctx) {
 					streams = append(streams, []wire.Op{r})
 				}
 				for i := range reps {
+					if c.Thorough() {
+						// every ordered pair of representative requests
+						for j := range reps {
+							streams = append(streams, []wire.Op{reps[i], reps[j]})
+						}
+						continue
+					}
 					streams = append(streams, []wire.Op{reps[i], reps[(i+3)%len(reps)]})
 				}
 				streams = append(streams, []wire.Op{{Kind: "quit"}}, []wire.Op{{Kind: "set", Key: "k", Val: "v"}, {Kind: "quit"}})
